@@ -171,6 +171,8 @@ macro_rules! impl_policy {
             #[inline]
             pub fn clear(&self) {
                 let mut inner = self.inner.lock();
+                #[cfg(transparencies_stretto_verif)]
+                crate::verif::policy_cleared();
                 inner.admit.clear();
                 inner.costs.clear();
             }
